@@ -14,7 +14,7 @@ EXTENDS ObsPrelude
 Tol == 100        \* 1e-7 relative (worst rounding error measured on the repaired tree: 1e-12)
 
 Admissible(e) ==
-    IF e.cls \in {"Periodogram", "MultiTapering"} THEN e.nfft >= e.N
+    IF e.cls \in {"Periodogram", "MultiTapering", "MultiTapering:adapt", "MultiTapering:unity"} THEN e.nfft >= e.N
     ELSE IF e.cls = "pcorrelogram" THEN e.nfft >= 2 * e.lag + 1
     ELSE IF e.cls = "pminvar" THEN e.nfft >= 2 * e.order
     ELSE e.nfft > e.order
@@ -22,7 +22,10 @@ Admissible(e) ==
 Clauses(e) ==
     IF e.ev = "grid" THEN
         { <<"no-exception", ~Admissible(e) \/ ~e.raised>>,
-          <<"same-value-at-common-frequencies", ~Admissible(e) \/ e.raised \/ Small(e.dev, Tol)>>,
+          \* the adaptive multitaper iteration stops on a mean absolute change scaled by 1/NFFT: two grids
+          \* agree to the stopping tolerance only (measured 2e-3 on the unchanged tree; 5e-2 allowed)
+          <<"same-value-at-common-frequencies", ~Admissible(e) \/ e.raised \/
+                Small(e.dev, IF e.cls = "MultiTapering:adapt" THEN 50000000 ELSE Tol)>>,
           <<"length-of-finer-grid", ~Admissible(e) \/ e.raised \/ e.len_ok>>,
           <<"parameters-independent-of-NFFT", ~Admissible(e) \/ e.raised \/ Small(e.par_dev, 1000)>> }
     ELSE { <<"unknown-event", FALSE>> }
